@@ -234,12 +234,45 @@ def _module_lines(path):
     if cur: res.append((cur[0], cur[1], 10 ** 9))
     return res
 
+def localise_hang(T, name, n, budget=300, quiet=20):
+    """after `enumerate` timed out: print every table before running it and name the one on which the parser stops responding"""
+    import threading
+    p = subprocess.Popen([T['harness'], 'enumerate-trace', name, str(n)], stdout=subprocess.PIPE, stderr=subprocess.DEVNULL, text=True)
+    last = {'line': None, 't': time.time(), 'count': 0}
+    def reader():
+        for line in p.stdout:
+            if line.startswith('T-RUN '):
+                last['line'] = line.rstrip('\n'); last['t'] = time.time(); last['count'] += 1
+    th = threading.Thread(target=reader, daemon=True); th.start()
+    t0 = time.time()
+    found = None
+    while time.time() - t0 < budget:
+        if p.poll() is not None: break
+        if last['line'] and time.time() - last['t'] > quiet:
+            found = last['line']; break
+        time.sleep(1)
+    try: p.kill()
+    except Exception: pass
+    return found, last['count']
+
 def run_schema(T, name, n):
     t0 = time.time()
+    limit = T.get('enum_timeout', 600)
     try:
-        p = subprocess.run([T['harness'], 'enumerate', name, str(n)], capture_output=True, text=True, timeout=3600)
+        p = subprocess.run([T['harness'], 'enumerate', name, str(n)], capture_output=True, text=True, timeout=limit)
     except subprocess.TimeoutExpired:
-        return {'name': name, 'status': 'error', 'why': 'timeout'}
+        # far beyond the normal running time of an enumeration: a generated parser that does not return. Find the table.
+        line, seen = localise_hang(T, name, n)
+        if line:
+            kv = line.split(' kv=', 1)[1].split() if ' kv=' in line else []
+            desc = line.split(' kv=')[0][6:]
+        else:
+            # no single table on which the parser stops responding was found: a slow machine is not a violation
+            return {'name': name, 'status': 'error', 'why': 'enumeration of %s did not finish within %d s and no hanging table was found (%d tables traced)' % (name, limit, seen)}
+        return {'name': name, 'status': 'fail', 'n': n, 'tables': 0, 'valid': 0, 'accepted': 0, 'rejected': 0, 'end_offsets': 0, 'nontrivial': 0,
+                'wall_s': round(time.time() - t0, 2),
+                'fails': [{'label': 'C01', 'what': 'the generated parser did not terminate: the enumeration (normally under a minute) was stopped after %d s, and on this table the parser had not returned after 20 s' % limit,
+                           'after': seen, 'tables': desc, 'kv': kv, 'hang': True}]}
     out = p.stdout
     if p.returncode < 0 or (p.returncode not in (0, 1) and 'T-' not in out):
         # the enumerator died (stack overflow / abort inside the generated parser): localise the table
@@ -264,7 +297,7 @@ def run_schema(T, name, n):
 def run_diff(T, name, twin, n, full):
     t0 = time.time()
     try:
-        p = subprocess.run([T['harness'], 'diff', name, twin, str(n), 'full' if full else 'noerr'], capture_output=True, text=True, timeout=3600)
+        p = subprocess.run([T['harness'], 'diff', name, twin, str(n), 'full' if full else 'noerr'], capture_output=True, text=True, timeout=T.get('enum_timeout', 600))
     except subprocess.TimeoutExpired:
         return {'name': name, 'status': 'error', 'why': 'timeout'}
     m = re.search(r'T-DIFF-(PASS|DONE) (\S+) twin=(\S+) n<=(\d+) tables=(\d+) valid=(\d+) nontrivial=(\d+) differing=(\d+)', p.stdout)
@@ -284,7 +317,10 @@ def replay_diff(T, name, twin, full, kv):
     return {'status': m.group(1).lower(), 'what': json.loads(m.group(4)) if m.group(4) else None, 'tables': m.group(5)}
 
 def replay(T, name, kv):
-    p = subprocess.run([T['harness'], 'replay', name] + list(kv), capture_output=True, text=True, timeout=300)
+    try:
+        p = subprocess.run([T['harness'], 'replay', name] + list(kv), capture_output=True, text=True, timeout=60)
+    except subprocess.TimeoutExpired:
+        return {'status': 'fail', 'label': 'C01', 'what': 'the generated parser does not return on this table (stopped after 60 s)', 'tables': ' '.join(kv)}
     out = p.stdout
     m = re.search(r'T-REPLAY-(PASS|FAIL|INVALID) (\S+)(?: prop=(\S+) what=(".*?"))?(?: tables=(.*))?', out)
     if not m: return {'status': 'error', 'why': (out + p.stderr)[-400:]}
@@ -303,6 +339,7 @@ def t_part(ctx, prop):
             if n not in T['status']: build_isolated(ctx, T, n)
             mine.append(n)
     cap = THOROUGH_CAP if ctx.tier == 'thorough' else QUICK_CAP
+    T['enum_timeout'] = 5400 if ctx.tier == 'thorough' else 600
     # static verdicts
     for n in mine:
         s = SCHEMAS[n]
